@@ -23,8 +23,9 @@ def run_check(prop: str, tier: str, repo: str, seed: int, write: bool = True, re
 
             ctx_ = Ctx(Program(repo), rep, tier)
             mod.check(ctx_)
-            from .rules.lib import r_decorated
+            from .rules.lib import r_decorated, r_module_state
             r_decorated(ctx_)
+            r_module_state(ctx_)
             return rep.code()
         except AnalysisError as e:
             rep.notes.append(f"ANALYSIS-ERROR {e}")
@@ -39,8 +40,9 @@ def run_check(prop: str, tier: str, repo: str, seed: int, write: bool = True, re
         prog = Program(repo)
         ctx = Ctx(prog, rep, tier)
         mod.check(ctx)
-        from .rules.lib import r_decorated
+        from .rules.lib import r_decorated, r_module_state
         r_decorated(ctx)
+        r_module_state(ctx)
         if tier == "thorough":
             from .thorough import extras
 
